@@ -147,6 +147,34 @@ func (b *srvBackend) deleteGraph(name string) {
 	b.srv.Edit.DeleteGraph(ctx, &gripql.GraphID{Graph: name})
 }
 
+func (b *srvBackend) addIndex(graph, label, field string) (bool, string, bool) {
+	ctx, cancel := rpcCtx()
+	defer cancel()
+	_, err := b.srv.Edit.AddIndex(ctx, &gripql.IndexID{Graph: graph, Label: label, Field: field})
+	if err != nil {
+		return false, err.Error(), false
+	}
+	return true, "", false
+}
+
+func (b *srvBackend) listIndices(graph string) ([]string, error) {
+	ctx, cancel := rpcCtx()
+	defer cancel()
+	r, err := b.srv.Query.ListIndices(ctx, &gripql.GraphID{Graph: graph})
+	if err != nil {
+		return nil, err
+	}
+	var out []string
+	for _, i := range r.Indices {
+		if i.Graph != graph {
+			out = append(out, "(graph "+i.Graph+")"+i.Label+"|"+i.Field)
+			continue
+		}
+		out = append(out, i.Label+"|"+i.Field)
+	}
+	return out, nil
+}
+
 func (b *srvBackend) listGraphs() []string {
 	ctx, cancel := rpcCtx()
 	defer cancel()
@@ -224,6 +252,11 @@ func probes(u *universe, light bool) (vids, eids, vlabels, elabels []string) {
 	return u.full.VertexIDs, u.full.EdgeIDs, u.full.VLabels, u.full.ELabels
 }
 
+// adjacency is probed from the hostile ids and from two base vertices
+func adjProbe(u *universe, id string) bool {
+	return id == "v1" || id == "v2" || isHost(u.hostV, id)
+}
+
 func isHost(list []string, x string) bool {
 	for _, y := range list {
 		if x == y {
@@ -271,11 +304,15 @@ func (b *srvBackend) observe(graph string, u *universe, light bool) obs.Observat
 		if id == "" || light {
 			continue // V("") is V() (no ids)
 		}
-		if isHost(u.hostV, id) {
-			put("V("+id+")", gripql.NewQuery().V(id))
+		if !adjProbe(u, id) {
+			continue
 		}
 		put("V("+id+").outE()", gripql.NewQuery().V(id).OutE())
 		put("V("+id+").inE()", gripql.NewQuery().V(id).InE())
+		if !isHost(u.hostV, id) {
+			continue
+		}
+		put("V("+id+")", gripql.NewQuery().V(id))
 		put("V("+id+").out()", gripql.NewQuery().V(id).Out())
 		put("V("+id+").in()", gripql.NewQuery().V(id).In())
 		for _, l := range u.hostEL {
@@ -371,11 +408,15 @@ func (b *srvBackend) modelObs(g *model.Graph, u *universe, light bool) obs.Obser
 				}
 			}
 		}
-		if isHost(u.hostV, id) {
-			o["V("+id+")"] = mset(self)
+		if !adjProbe(u, id) {
+			continue
 		}
 		o["V("+id+").outE()"] = mset(outE)
 		o["V("+id+").inE()"] = mset(inE)
+		if !isHost(u.hostV, id) {
+			continue
+		}
+		o["V("+id+")"] = mset(self)
 		o["V("+id+").out()"] = mset(outV)
 		o["V("+id+").in()"] = mset(inV)
 		for _, l := range u.hostEL {
